@@ -30,10 +30,12 @@ const COMMANDS: &[(&str, &str, fn(&[String]) -> i32)] = &[
     ("c01", "<vectors.ndjson> <out.ndjson>", c01::cmd),
     ("c17-matrix", "<types.ndjson> <out.ndjson>", c17::cmd_matrix),
     ("c17-rollback", "<histories.ndjson> <out.ndjson>", c17::cmd_rollback),
+    ("c17-whole", "<unused> <out.ndjson>", c17::cmd_whole),
     ("c16", "<cases.ndjson> <out.ndjson>", c16::cmd),
     ("c08", "<in.ndjson> <out.ndjson> [--workers N]", c08::cmd_parent),
     ("c08-worker", "(child of c08: input lines on stdin, output lines on stdout)", c08::cmd_worker),
     ("c08-selftest", "", c08::cmd_selftest),
+    ("c08-stream", "<in.ndjson> <out.ndjson>", c08::cmd_stream),
 ];
 
 fn usage() {
